@@ -24,7 +24,7 @@ let string_of_n (x : n) : string =
     Buffer.contents b
   end
 
-let nreg = 5
+let nreg = ref 5
 let bits_of (sh : shape) = String.concat "" (List.map (fun b -> if b then "1" else "0") sh)
 let shape_of_bits (s : string) : shape = List.init (String.length s) (fun i -> s.[i] = '1')
 
@@ -108,10 +108,14 @@ let apply (toks : string list) (buf : Buffer.t) =
   let arr = Array.of_list toks in
   let u i = int_of_string arr.(i) in
   let nv i = n_of_string arr.(i) in
-  (* payload normalisation of the harness component types: C1 is zero-sized, C4 holds 32 bits *)
+  (* payload normalisation of the harness component types (harness/src/comps.rs):
+     zero-sized C1, C9; 32 bits C4, C5, C11, C13, C15; 16 bits C7; 8 bits C8 *)
   let nvc c i =
-    if c = 1 then N0
-    else if c = 4 then n_of_string (string_of_int (int_of_string arr.(i) land 0xFFFFFFFF))
+    let mask m = n_of_string (string_of_int (int_of_string arr.(i) land m)) in
+    if c = 1 || c = 9 then N0
+    else if c = 4 || c = 5 || c = 11 || c = 13 || c = 15 then mask 0xFFFFFFFF
+    else if c = 7 then mask 0xFFFF
+    else if c = 8 then mask 0xFF
     else n_of_string arr.(i) in
   let ret = ref "none" in
   let evs = ref "ev " in
@@ -140,7 +144,7 @@ let apply (toks : string list) (buf : Buffer.t) =
    | "new" ->
      let ws = u 1 in
      ensure ws;
-     !worlds.(ws) <- Some (empty_world (nat_of_int nreg) [nv 2; nv 3])
+     !worlds.(ws) <- Some (empty_world (nat_of_int !nreg) [nv 2; nv 3; n_of_string (string_of_int (int_of_string arr.(4) land 0xFFFFFFFF)); nv 5])
    | "drop" ->
      let ws = u 1 in
      ensure ws;
@@ -174,7 +178,9 @@ let apply (toks : string list) (buf : Buffer.t) =
      let cs = List.init k (fun j -> nat_of_int (u (4 + j))) in
      single (u 1) (Reserve cs)
    | "shr" -> single (u 1) ShrinkToFit
-   | "rset" -> single (u 1) (ResSet (nat_of_int (u 2), nv 3))
+   | "rset" ->
+     let v = if u 2 = 2 then n_of_string (string_of_int (int_of_string arr.(3) land 0xFFFFFFFF)) else nv 3 in
+     single (u 1) (ResSet (nat_of_int (u 2), v))
    | "cln" ->
      let src = u 1 and dst = u 2 in
      ensure src; ensure dst;
@@ -207,7 +213,7 @@ let apply (toks : string list) (buf : Buffer.t) =
          match ser_world w with
          | None -> raise (ModelUB "serialize")
          | Some sw ->
-           match de_world (nat_of_int nreg) sw with
+           match de_world (nat_of_int !nreg) sw with
            | Inl _ -> ret := "err-de"
            | Inr w' ->
              !worlds.(dst) <- Some w';
@@ -241,6 +247,7 @@ let () =
         | "case" :: rest ->
           reset ();
           Printf.bprintf out "case %s\n" (String.concat " " rest)
+        | "nreg" :: k :: _ -> nreg := int_of_string k
         | "op" :: rest ->
           (try apply rest out
            with ModelUB s ->
